@@ -55,9 +55,18 @@ def junk_forms(i, tag, rng, huge=False):
     # a long line in the middle must not treat the rest as a line of its own)
     forms.append("%d Z %s %d D" % (u, "y" * rng.choice([8200, 9000, 12300, 16500]), i))
     forms.append("%d Z %s %d H Others" % (u, "y " * rng.choice([4100, 4600, 8200]), i))
+    forms.append(periodic_junk(i, rng))
     if huge:
         forms = forms[-2:] + ["%d Z %s" % (u, "y" * 70000), "%d Q %s" % (i, "ab " * 30000), "\t" * 66000]
     return forms
+
+
+def periodic_junk(i, rng):
+    """An over-long junk line every suffix of which reads like a command for client i ("<i> D <i> D ..." after an unknown
+    id and command letter; the padding shifts the period against whatever boundary a reader might cut at)."""
+    unit = rng.choice(["%d D " % i, "%d T " % i, "%d H Others " % i])
+    n = rng.choice([8300, 9000, 12400, 16500, 20600, 33000])
+    return "%d Z %s%s" % (i + 1000, "q" * rng.randrange(len(unit)) + " ", unit * (n // len(unit)))
 
 
 class Renderer(D.Daemon):
@@ -86,6 +95,8 @@ def splice_junk(ctx, events, svcs, density, huge=False):
         forms = junk_forms(i, tag, rng, huge)
         tagged = [x for x in forms if tag in x]
         f = rng.choice(tagged) if (tagged and not huge and rng.random() < 0.3) else rng.choice(forms)
+        if not huge and rng.random() < 0.05:
+            f = periodic_junk(i, rng)
         items.append({"ev": None, "raw": f, "junk": True, "crlf": crlf() and "\r" not in f})
     for e in events:
         while rng.random() < density:
@@ -740,6 +751,11 @@ def run(ctx):
                           budget={"full_for": 0, "bytes": True, "n2": 4, "special": 6, "nk": 3, "ntrunc": 4, "strunc": 5,
                                   "nglue": 1, "nprompt": 2},
                           max_inst=1, max_pw=1, emit_mod=40)
+        # a service table with a hole (an entry whose protocol word is unknown is allocated and freed again)
+        jobs += histories(ctx, "hqu", "S_unk", nhist=25, nstd=120,
+                          budget={"full_for": 0, "bytes": True, "n2": 3, "special": 4, "nk": 2, "ntrunc": 3, "strunc": 3,
+                                  "nglue": 1, "nprompt": 1},
+                          max_inst=1, max_pw=1, emit_mod=150)
         ncases = byte_level(ctx, enumerated_cases(3, 2), "enum")
         ncases += byte_level(ctx, mutation_cases(ctx.rng, 4000), "mut")
         ncases += byte_level(ctx, mutation_cases(ctx.rng, 1200), "mutc", with_class=True)
@@ -756,6 +772,10 @@ def run(ctx):
                           budget={"full_for": 1, "all2": True, "alltrunc": True, "bytes": True, "n2": 10, "special": 20, "nk": 6,
                                   "ntrunc": 10, "strunc": 12, "nglue": 4, "nprompt": 6, "kmax": 8},
                           max_inst=1, max_pw=1, emit_mod=10)
+        jobs += histories(ctx, "ht3", "S_unk", nhist=120, nstd=1000,
+                          budget={"full_for": 1, "all2": True, "alltrunc": True, "bytes": True, "n2": 10, "special": 20, "nk": 6,
+                                  "ntrunc": 10, "strunc": 12, "nglue": 4, "nprompt": 6, "kmax": 8},
+                          max_inst=1, max_pw=1, emit_mod=20)
         ncases = byte_level(ctx, enumerated_cases(4, 3), "enum")
         ncases += byte_level(ctx, mutation_cases(ctx.rng, None), "mut")
         ncases += byte_level(ctx, mutation_cases(ctx.rng, None) + enumerated_cases(2, 2), "mutc", with_class=True)
